@@ -27,8 +27,8 @@ ALLOWED = {
     (INIT, "disable_comments"): {("COMMENT-", ANY), ("MODEL-FIELD", "Statement._comments")},
     (INIT, "decimals"): {("IO", ANY)},
     (INIT, "instances_report_mode"): {("IO", ANY)},
-    (INIT, "all_instances_are_compliant_mode"): {("CARD", "*/?"), ("PROB", ANY), ("COMMENT+", ANY)},
-    (INIT, "allow_opt_cardinality"): set(),
+    (INIT, "all_instances_are_compliant_mode"): {("CARD", "*"), ("CARD", "?"), ("PROB", ANY), ("COMMENT+", ANY)},
+    (INIT, "allow_opt_cardinality"): {("CARD", "*"), ("CARD", "?")},       # chooses between the two relaxed cardinalities
     (INIT, "disable_exact_cardinality"): {("CARD", "+")},
     (INIT, "disable_or_statements"): {("STMT-NEW", "FixedPropChoiceStatement")},
     (INIT, "allow_redundant_or"): set(),
